@@ -35,6 +35,24 @@ def run(chk, tier):
         L.teardown_pre_effects(chk, F, 'R13.3.teardown', cfg, fn, paths)
 
 
+def chain_cell(cell, depth=0):
+    """`cell` is a position of this chain: the root cell, or the `next` cell of a node that occupies a position of this chain - a node
+    seen there by a read (`get` -> Some) or handed back by a failed insertion (`try_insert` -> Err((occupant, _)))"""
+    cell = strip(cell)
+    root, names = field_path(cell)
+    if root == ('param', 0, 1) and names == ['root']:
+        return True
+    r = strip(root)
+    if depth > 8 or r[0] != 'call' or not r[2]:
+        return False
+    core = [n_ for n_ in names if n_ != 'pointer']
+    if re.search(r'OnceCell::get$', r[1]) and core == ['0', 'next', '0'] and mentions(cell, lambda x: x[0] == 'as' and x[2] == 'Some'):
+        return chain_cell(r[2][0], depth + 1)
+    if re.search(r'OnceCell::try_insert$', r[1]) and core == ['0', '0', 'next', '0'] and mentions(cell, lambda x: x[0] == 'as' and x[2] == 'Err'):
+        return chain_cell(r[2][0], depth + 1)
+    return False
+
+
 def push_node(chk, F, rule, cfg):
     fn = F.fn('value_chain::ValueChain::push_node')
     paths = symex.Interp(F, loop_bound=3).run(fn)
@@ -43,7 +61,8 @@ def push_node(chk, F, rule, cfg):
     chk.ob(rule, 'push_node has returning paths', len(rets) >= 2, config=cfg, fn=fn, site='paths', unrecognised=True, what='push_node paths', found=len(rets))
     for p in rets:
         ins = list(p.calls(r'OnceCell::try_insert$'))
-        others = [e.data[1] for e in p.calls() if not re.search(r'(OnceCell::try_insert|Deref>?::deref|Box.*as_ref|AsRef>?::as_ref)$', e.data[1])]
+        # (looking at a cell with `get` changes nothing: only try_insert puts a node into the chain)
+        others = [e.data[1] for e in p.calls() if not re.search(r'(OnceCell::try_insert|OnceCell::get|Deref>?::deref|Box.*as_ref|AsRef>?::as_ref)$', e.data[1])]
         r = strip(p.outcome[1])
         # &*(try_insert(..) as Ok).0
         # (possibly seen through the Box the node lives in: `&**ok.0`)
@@ -59,13 +78,13 @@ def push_node(chk, F, rule, cfg):
             cell, node = strip(e.data[2][0]), strip(e.data[2][1])
             if i == 0:
                 okn = node == ('param', 0, 2)
-                okc = field_path(cell) == (('param', 0, 1), ['root'])
+                okc = chain_cell(cell)
             else:
                 pv = ('call', prev.data[1], prev.data[2], prev.data[3])
                 okn = mentions(node, lambda x: x == pv) and field_path(node)[1][-1:] == ['1'] and mentions(node, lambda x: x[0] == 'as' and x[2] == 'Err')
                 names = field_path(cell)[1]
                 okc = mentions(cell, lambda x: x == pv) and 'next' in names and mentions(cell, lambda x: x[0] == 'as' and x[2] == 'Err')
-            chk.ob(rule, 'attempt %d inserts this call\'s node into %s' % (i + 1, 'the root cell' if i == 0 else 'the `next` cell of the occupying node'), okn and okc, config=cfg, fn=fn, site='attempt%d' % (i + 1),
+            chk.ob(rule, 'attempt %d inserts this call\'s node into %s' % (i + 1, 'a cell of this chain (the root, or the `next` cell of a node found in it)' if i == 0 else 'the `next` cell of the occupying node'), okn and okc, config=cfg, fn=fn, site='attempt%d' % (i + 1),
                    what='attempt %d node=%s cell=%s' % (i + 1, okn, okc), found={'cell': show(cell)[:160], 'node': show(node)[:160]})
             prev = e
     # push / push_fragile as a whole (the private steps between them and push_node are part of them): what is handed out is the
@@ -126,7 +145,7 @@ def chain_writers(chk, F, rule, cfg):
     chk.ob(rule, 'push_value_mut needs exclusive access', pvm.locals[1]['ty'].startswith('&mut'), config=cfg, fn=pvm, site='push_value_mut', what='receiver %s' % pvm.locals[1]['ty'], found=pvm.locals[1]['ty'])
 
 
-HELPER_OK = re.compile(r'OnceCell(<T>)?::(get_or_init|get_or_try_init|get|get_mut)$')
+HELPER_OK = re.compile(r'OnceCell(<T>)?::(set|try_insert|get_or_init|get_or_try_init|get|get_mut)$')
 
 
 def helper_cell(chk, F, rule, cfg):
@@ -179,7 +198,9 @@ def chain_teardown(chk, F, rule, cfg):
         for i, e in enumerate(ops):
             recv = e.data[2][0]
             if i == 0:
-                ok = ok and field_path(recv) == (('param', 0, 1), ['root'])
+                # the root cell of this chain, in place or moved out of it first (mem::take / mem::replace leave an empty cell behind)
+                moved = mentions(recv, lambda x: is_call(x, r'core::mem::(take|replace)$') and field_path(x[2][0]) == (('param', 0, 1), ['root']))
+                ok = ok and (field_path(recv) == (('param', 0, 1), ['root']) or moved)
             else:
                 # (the cell may have been moved into a local first: `let mut cell = node.next; cell.take()` - then the snapshot says where it came from)
                 src = recv[3] if recv[0] == 'ref' and recv[1][0][0] == 'local' and len(recv) > 3 else recv
